@@ -240,7 +240,11 @@ func (n *bNode) startNode() error {
 	tc := n.cfg.GetTracesConfig()
 	n.upTx = transmit.NewDirectTransmission(types.TransmitTypeUpstream, upT, int(tc.GetMaxBatchSize()), tc.GetBatchTimeout(), 30*time.Second, true, nil)
 	n.peerTx = transmit.NewDirectTransmission(types.TransmitTypePeer, peerT, int(tc.GetMaxBatchSize()), tc.GetBatchTimeout(), 10*time.Second, n.cfg.GetCompressPeerCommunication(), nil)
-	n.upTx.Clock, n.peerTx.Clock = n.clk, n.clk
+	// the two transmissions create identical tickers from identical goroutines:
+	// give each its own clock so that every ticker has a stable identity
+	upClk, peerClk := NewSimClock(n.name+"/uptx"), NewSimClock(n.name+"/peertx")
+	w.drv.Clocks = append(w.drv.Clocks, upClk, peerClk)
+	n.upTx.Clock, n.peerTx.Clock = upClk, peerClk
 	n.coll = &collect.InMemCollector{}
 	n.mm = metrics.NewMultiMetrics()
 	n.shard = sharder.GetSharderImplementation(c)
@@ -284,9 +288,14 @@ func (n *bNode) startNode() error {
 	if err := startstop.Start(n.objects, nullStartStopLogger{}); err != nil {
 		return fmt.Errorf("start: %w", err)
 	}
+	// goroutines started so far draw their start-up jitter from the global
+	// math/rand (config watcher); let them do so before the next one starts,
+	// so that the order of draws is the same in every execution
+	w.drv.Settle()
 	if err := peers.Ready(); err != nil {
 		return err
 	}
+	w.drv.Settle()
 	n.running = true
 	return nil
 }
